@@ -467,6 +467,15 @@ class LogWrapper(BaseWrapper):
             returned_episode_lengths=0,
             timestep=0,
         )
+        # Report the same info entries as step() does, so that the infos of reset() and step() share one structure
+        # (required when an AutoResetWrapper is placed around this wrapper). A new dict: the wrapped env may keep its own.
+        info = dict(
+            info,
+            returned_episode_returns=log_state.returned_episode_returns,
+            returned_episode_lengths=log_state.returned_episode_lengths,
+            timestep=log_state.timestep,
+            returned_episode=False,
+        )
         log_gs = gs.replace_aux({"log": log_state})
         return log_gs, obs, info
 
